@@ -56,6 +56,23 @@ CHECKS = {
                 design="6/C18", note=SIMCORE_NOTE),
 }
 
+SEQ_NOTE = ("Trusted: TLC/SANY, the Rust harness. Exhaustive up to the stated operation-sequence length over a small "
+            "alphabet; longer histories by seeded sampling. Concurrent use of a sink from several threads is not covered.")
+CHECKS.update({
+    "C17": dict(engine="seqds", spec="Sinks.tla (Bounded, Increasing; Write/Next/Drain/Open/Close)",
+                text="TLC enumerates every sequence of write/next/drain/open/close operations up to the length bound for "
+                     "EventBuffer capacities 1..3 and EventSlot with both constructors, together with the value each "
+                     "operation must return; every such behaviour is replayed on the real sink and every returned value "
+                     "compared (one implementation test per specification behaviour).",
+                design="6/C17", note=SEQ_NOTE),
+    "C20": dict(engine="seqds", spec="PQ.tla, PQ_Trace.tla (minimum of (key, epoch); handle designates its own entry only)",
+                text="TLC enumerates every sequence of insert/pull/peek/extract operations (with retained and stale "
+                     "handles, hence slot reuse) up to the length bound and the value each must return; all are replayed "
+                     "on the real PriorityQueue and IndexedPriorityQueue; long seeded sequences are validated against "
+                     "PQ_Trace.tla.",
+                design="6/C20", note=SEQ_NOTE),
+})
+
 PENDING = {}
 
 TITLES = {}
@@ -101,6 +118,10 @@ def main():
                                     "cargo test --workspace --no-fail-fast --offline",
                    source_commits=hook_commits, add_only=True),
         engines=[
+            dict(name="seqds", path="/verif/specs/Sinks.tla /verif/specs/PQ.tla /verif/specs/PQ_Trace.tla "
+                                    "/verif/tools/check_seqds.py /verif/harness/src/seqds.rs",
+                 serves_properties=["C17", "C20"],
+                 kind_free_text="TLC behaviour enumeration + replay with value comparison + trace validation"),
             dict(name="simcore", path="/verif/specs/SimCore.tla /verif/specs/SimCore_Trace.tla /verif/tools/check_simcore.py "
                                       "/verif/harness/src/simcore.rs",
                  serves_properties=["C01", "C07", "C08", "C09", "C10", "C11", "C18"],
